@@ -189,12 +189,14 @@ Fixpoint spec_flags_all (c : case) (Ls : list bytes) (fl : list flags) : bool :=
 
 (* (3) the scan survives processes that vanish (or are inaccessible) while it runs.
    What the kernel answers for a task that has exited, per call site: lookups, stat and
-   getdents say ENOENT; readlink and open say ENOENT or EACCES (fs/proc/base.c, fs/proc/fd.c) *)
+   getdents say ENOENT; readlink and open say ENOENT, EACCES (fs/proc/base.c, fs/proc/fd.c) or
+   ESRCH (observed on Linux 6.18 for the readlink of /proc/<pid>/exe of a task that exits
+   between the listing of /proc and the call: thorough run of 2026-10-01) *)
 Definition vanish_ok (r : rid) (e : err) : bool :=
   match r with
   | RTopOpen | RTopReaddir => false
   | RLstat | RFdReaddir | RFdLstat _ => match e with ENOENT => true | _ => false end
-  | _ => match e with ENOENT | EACCES => true | _ => false end
+  | _ => match e with ENOENT | EACCES | ESRCH => true | _ => false end
   end.
 Definition only_vanish (c : case) : bool := forallb (fun f => vanish_ok (f_rid f) (f_err f)) (c_faults c).
 
